@@ -193,8 +193,13 @@ func orderProbes(r *rand.Rand, n int) ([]OLine, error) {
 		tailFrom := "\\." + label + "\\.order\\.test$"
 		tailTo := ":" + strings.Split(bTail.Addr(), ":")[1]
 		allFrom := []string{"^(.*)\\.order\\.test$", "^[0-9.]+\\.[a-z0-9-]+\\.order\\.test$", "(?i)^.+\\.ORDER\\.TEST$"}[r.Intn(3)]
+		allTo := bAll.Addr()
+		if r.Intn(4) == 0 {
+			// the very same pattern twice, with different policies and backends: still two routes, the first listed wins
+			allFrom, allTo = tailFrom, "':"+strings.Split(bAll.Addr(), ":")[1]+"'"
+		}
 		tail := fmt.Sprintf("- service: tailsvc\n  default:\n    from: '%s'\n    to: '%s'\n    type: rewrite\n    options:\n      provider_slug: tail-idp\n      allowed_email_domains:\n        - corp.test\n", tailFrom, tailTo)
-		all := fmt.Sprintf("- service: allsvc\n  default:\n    from: '%s'\n    to: %s\n    type: rewrite\n    options:\n      provider_slug: all-idp\n      allowed_email_domains:\n        - corp.test\n", allFrom, bAll.Addr())
+		all := fmt.Sprintf("- service: allsvc\n  default:\n    from: '%s'\n    to: %s\n    type: rewrite\n    options:\n      provider_slug: all-idp\n      allowed_email_domains:\n        - corp.test\n", allFrom, allTo)
 		first := "tail"
 		y := tail + all
 		if r.Intn(3) == 0 {
